@@ -289,29 +289,51 @@ async fn episode(p: &EpParams, mt: bool) -> EpReport {
         Profile::C03 => rng.chance(1, 4),
     };
     if burst {
-        let k = rng.range(20, 40);
-        for i in 0..k {
-            let cx = mk(&w);
-            let t = ta.clone();
-            let mut r = rng.fork(100 + i);
-            if prof == Profile::C08 || i % 2 == 0 {
+        // waves: 20-40 simultaneous pulls on one subscription (more than its 16-slot mailbox holds)
+        // together with several simultaneous publishes, so that posts have to wait for room
+        let waves = if prof == Profile::C08 { rng.range(1, 3) } else { 1 };
+        let mut total = 0;
+        for wv in 0..waves {
+            let k = rng.range(20, 40);
+            let n_pubs = if prof == Profile::C08 { rng.range(2, 6) } else { k / 2 };
+            total += k;
+            let delay = rng.below(3) * 7;
+            let target = subs[rng.below(subs.len() as u64) as usize].clone();
+            for i in 0..k {
+                let cx = mk(&w);
+                let mut r = rng.fork(1000 * (wv + 1) + i);
+                let s = if r.chance(4, 5) { target.clone() } else { subs[(i as usize) % subs.len()].clone() };
+                let pl = Arc::clone(&pool);
                 tasks.push(tokio::spawn(async move {
+                    if delay > 0 && !mt {
+                        tokio::time::sleep(Duration::from_millis(delay)).await;
+                    }
                     for _ in 0..r.below(3) {
                         tokio::task::yield_now().await;
                     }
-                    let _ = cx.publish(&t, &[Msg::tagged(&format!("b{}#0.0", cx.id))]).await;
-                }));
-            } else {
-                let s = subs[(i as usize) % subs.len()].clone();
-                let pl = Arc::clone(&pool);
-                tasks.push(tokio::spawn(async move {
-                    if let Ok(ds) = cx.pull(&s, 2, true).await {
+                    if let Ok(ds) = cx.pull(&s, 1 + r.below(2) as i32, true).await {
                         pl.add(&s, ds.iter().map(|d| d.ack_id.clone()));
                     }
                 }));
             }
+            for i in 0..n_pubs {
+                let cx = mk(&w);
+                let t = ta.clone();
+                let mut r = rng.fork(5000 * (wv + 1) + i);
+                tasks.push(tokio::spawn(async move {
+                    if delay > 0 && !mt {
+                        tokio::time::sleep(Duration::from_millis(delay)).await;
+                    }
+                    for _ in 0..r.below(4) {
+                        tokio::task::yield_now().await;
+                    }
+                    let n = 1 + r.below(2);
+                    let msgs: Vec<Msg> = (0..n).map(|j| Msg::tagged(&format!("b{}#{}.{}", cx.id, wv, j))).collect();
+                    let _ = cx.publish(&t, &msgs).await;
+                }));
+            }
         }
-        shape.push(format!("burst{}", k));
+        shape.push(format!("burst{}x{}", waves, total));
     }
     // consumers
     for s in subs.iter() {
